@@ -138,7 +138,8 @@ def parseOp (verb : String) (toks : List String) : Option Op :=
 
 open Hecs.Spec in
 def specObs (s : SpecW) (hs : List Entity) : String :=
-  let live := sortBy (fun a b => entLt a.1 b.1) (s.live.map (fun p => (p.1, sortComps p.2)))
+  -- component types ≥ 100 (the fields of a bundle struct taken apart) show in archetype lists only
+  let live := sortBy (fun a b => entLt a.1 b.1) (s.live.map (fun p => (p.1, sortComps (visible p.2))))
   let iter := "[" ++ ";".intercalate (live.map (fun p => showEntity p.1 ++ "=" ++ showComps p.2)) ++ "]"
   let keys := (s.live.map (fun p => sortNat (p.2.map (·.1)))).eraseDups
   let groups := keys.map (fun k => (k, (s.live.filter (fun p => sortNat (p.2.map (·.1)) == k)).length))
@@ -147,7 +148,7 @@ def specObs (s : SpecW) (hs : List Entity) : String :=
   let h (e : Entity) : String :=
     (if s.contains e then "1" else "0") ++ "/" ++
       (match s.lookup e with
-       | some cs => showComps (sortComps cs)
+       | some cs => showComps (sortComps (visible cs))
        | none => if s.reserved.contains e then "[]" else "x")
   s!"len={s.live.length} iter={iter} arch={arch} hs=" ++ showList h hs ++ " acc=ok"
 
